@@ -94,7 +94,53 @@ def create_and_store(c):
         heap.CUSTOM_KINDS.update(saved_kinds)
 
 
+def has_break_before(c):
+    """InstructionNodeCreator.has_break_before (decides whether a tab offset repositions the caption or
+    belongs to a continuation row): True exactly when, walking back from the end of the buffer, a line
+    break is met before any text - style and repositioning nodes in between do not count (an italic
+    preamble on a continuation row stores BREAK, ITALICS ON).  Any buffer length (reversed loop)."""
+    heap.install(c.interp)
+    saved = dict(heap.SCHEMAS)
+    p = cur()
+    try:
+        declare(_InstructionNode, _type="int!", text="text", position="id")
+        nodes = SymList(z3.Const("collection", SEQ), _InstructionNode)
+        n = z3.Length(nodes.t)
+        TY = heap_array(p, _InstructionNode, "_type")
+        TEXT, BREAK = _InstructionNode.TEXT, _InstructionNode.BREAK
+        J = z3.Int("any_index")
+        p.assume(z3.And(0 <= J, J < n))
+        other = lambda k: z3.And(TY[nodes.t[k]] != TEXT, TY[nodes.t[k]] != BREAK)
+
+        def inv(S):
+            # the last S.i nodes are neither text nor break
+            return [("nodes_walked_so_far_are_neither_text_nor_break", z3.Implies(J >= n - S.i, other(J)))]
+        c.interp.loop_hooks[("pycaption.scc.specialized_collections:InstructionNodeCreator.has_break_before", 1)] = \
+            loop_rule("walk_back", inv)
+        r = c.call(SC.InstructionNodeCreator.has_break_before, nodes, compare=False)
+        i = p.ghost.get("loop_index", {}).get("walk_back")
+        res = sym.zbool(r)
+        if i is None:
+            # no walk happened on this path: only right for the empty buffer (same obligation names, so that code
+            # which answers without walking back fails the obligations that were discharged before)
+            for nm in ("nodes_after_the_stop_are_neither_text_nor_break", "stopped_at_a_break_means_true", "stopped_at_text_means_false",
+                       "stops_only_at_text_or_break", "no_text_and_no_break_means_false"):
+                c.ensure(nm, z3.And(n == 0, z3.Not(res)))
+        else:
+            k = n - 1 - i                                # the node the walk stopped at (-1: walked through)
+            c.ensure("nodes_after_the_stop_are_neither_text_nor_break", z3.Implies(J > k, other(J)))
+            c.ensure("stopped_at_a_break_means_true", z3.Implies(z3.And(k >= 0, TY[nodes.t[k]] == BREAK), res))
+            c.ensure("stopped_at_text_means_false", z3.Implies(z3.And(k >= 0, TY[nodes.t[k]] == TEXT), z3.Not(res)))
+            c.ensure("stops_only_at_text_or_break", z3.Implies(k >= 0, z3.Not(other(k))))
+            c.ensure("no_text_and_no_break_means_false", z3.Implies(k < 0, z3.Not(res)))
+    finally:
+        heap.SCHEMAS.clear()
+        heap.SCHEMAS.update(saved)
+
+
 def prove_captions(ctx):
+    ctx.prove("scc.InstructionNodeCreator.has_break_before", has_break_before,
+              functions=[SC.InstructionNodeCreator.has_break_before], crosscheck=False)
     ctx.prove("scc.CaptionCreator.create_and_store", create_and_store, functions=[CaptionCreator.create_and_store],
               crosscheck=False)
     ctx.assume("create_and_store: the buffer iterates over what _format_italics returns (its proved contract is assumed "
